@@ -530,8 +530,19 @@ func (x *c13) parser(F string, sets []absint.CharSet, enc *c13Enc) {
 			cnt[b]++
 		}
 	}
+	// digits that no ParseUint call sees may still be decoded by other means
+	// (hex.DecodeString + encoding/binary, a nibble table …): the field lanes
+	// say whether each of their four bits lands in the GUID exactly once
+	landed := map[lanes.Bit]int{}
+	for _, l := range c13MSDTYP {
+		for _, b := range leaves[l.field] {
+			if b.K == lanes.Src && b.S == tsrc {
+				landed[b]++
+			}
+		}
+	}
 	var multi, never []string
-	ndig := 0
+	ndig, other := 0, 0
 	for i := range sets {
 		if _, single := sets[i].Single(); single {
 			continue
@@ -543,6 +554,16 @@ func (x *c13) parser(F string, sets []absint.CharSet, enc *c13Enc) {
 				n = -1
 			}
 		}
+		if n == 0 {
+			once := true
+			for b := 0; b < 4; b++ {
+				once = once && landed[lanes.Bit{K: lanes.Src, S: tsrc, I: i, B: b}] == 1
+			}
+			if once {
+				other++
+				continue
+			}
+		}
 		switch {
 		case n == 0:
 			never = append(never, fmt.Sprint(i))
@@ -550,7 +571,9 @@ func (x *c13) parser(F string, sets []absint.CharSet, enc *c13Enc) {
 			multi = append(multi, fmt.Sprint(i))
 		}
 	}
-	if len(multi) == 0 && len(never) == 0 {
+	if len(multi) == 0 && len(never) == 0 && other > 0 {
+		r.OK(c13R3, consOnce, pos, fmt.Sprintf("%d digits: %d in exactly one ParseUint call, %d decoded without ParseUint and landing in the GUID fields exactly once, bit for bit", ndig, ndig-other, other))
+	} else if len(multi) == 0 && len(never) == 0 {
 		r.OK(c13R3, consOnce, pos, fmt.Sprintf("%d digits, each in exactly one ParseUint call (slices/split elements are disjoint and cover the input)", ndig))
 	} else {
 		r.Fail(c13R3, consOnce, pos, fmt.Sprintf("digits at string positions [%s] are parsed more than once and [%s] never: the slices / split elements are not consumed exactly once", strings.Join(multi, ","), strings.Join(never, ",")))
@@ -590,7 +613,13 @@ func (x *c13) parser(F string, sets []absint.CharSet, enc *c13Enc) {
 			}
 		}
 		okSum := sum == declared || (l.field == "E" && sum == 48)
-		if okSum {
+		if len(sizes) == 0 && len(inField) > 0 {
+			// the field is filled, but not through strconv.ParseUint: the question this
+			// clause asks (does ParseUint's bit size admit more than the field holds?)
+			// is about ParseUint calls the rule has not seen
+			r.Note("%s %s: NOT DECIDED — the digits reach %s without strconv.ParseUint (hex.DecodeString, encoding/binary, shifts …); whether an over-long element is refused is not examined for that form", c13R3, sizeCons(l.field), l.field)
+			r.OK(c13R3, sizeCons(l.field), pos, "NOT DECIDED — no strconv.ParseUint call feeds "+l.field+" (it is filled by other decoders, see the field map clause); no narrowing ParseUint range was observed")
+		} else if okSum {
 			r.OK(c13R3, sizeCons(l.field), pos, fmt.Sprintf("bit sizes %s = %d", strings.Join(sizes, "+"), sum))
 		} else {
 			r.Fail(c13R3, sizeCons(l.field), pos, fmt.Sprintf("ParseUint calls whose digits reach %s accept [%s] = %d bits, the field is %d bits wide: the parsed range and the stored range differ (digits are dropped or a longer element is silently truncated)", l.field, strings.Join(sizes, "+"), sum, declared))
@@ -768,10 +797,82 @@ func (x *c13) normTrace(fn *ssa.Function, param ssa.Value, depth int) (state map
 					}
 				}
 			}
+			if c13ErrorTextOnly(rr, 0) {
+				continue // quoted in an error message only: not validated, not parsed
+			}
 			consumers[v] = append(consumers[v], rr)
 		}
 	}
 	return state, consumers
+}
+
+// c13ErrorTextOnly: the instruction uses a string only to build the text of an
+// error (an argument of fmt.Errorf, a concatenation handed to errors.New /
+// fmt.Errorf).
+func c13ErrorTextOnly(instr ssa.Instruction, depth int) bool {
+	if depth > 3 {
+		return false
+	}
+	isErrCtor := func(c *ssa.Call) bool {
+		f := c.Common().StaticCallee()
+		if f == nil || f.Pkg == nil {
+			return false
+		}
+		switch f.Pkg.Pkg.Path() + "." + f.Name() {
+		case "fmt.Errorf", "errors.New":
+			return true
+		}
+		return false
+	}
+	allRefs := func(v ssa.Value, ok func(ssa.Instruction) bool) bool {
+		if v.Referrers() == nil || len(*v.Referrers()) == 0 {
+			return false
+		}
+		for _, rr := range *v.Referrers() {
+			if _, isDbg := rr.(*ssa.DebugRef); isDbg {
+				continue
+			}
+			if !ok(rr) {
+				return false
+			}
+		}
+		return true
+	}
+	switch y := instr.(type) {
+	case *ssa.Call:
+		return isErrCtor(y)
+	case *ssa.BinOp:
+		return allRefs(y, func(rr ssa.Instruction) bool { return c13ErrorTextOnly(rr, depth+1) })
+	case *ssa.MakeInterface:
+		// stored into the varargs array of fmt.Errorf
+		return allRefs(y, func(rr ssa.Instruction) bool {
+			st, ok := rr.(*ssa.Store)
+			if !ok || st.Val != ssa.Value(y) {
+				return false
+			}
+			ia, ok := st.Addr.(*ssa.IndexAddr)
+			if !ok {
+				return false
+			}
+			al, ok := ia.X.(*ssa.Alloc)
+			if !ok || al.Comment != "varargs" {
+				return false
+			}
+			return allRefs(al, func(r2 ssa.Instruction) bool {
+				switch z := r2.(type) {
+				case *ssa.IndexAddr:
+					return true
+				case *ssa.Slice:
+					return allRefs(z, func(r3 ssa.Instruction) bool {
+						c, ok := r3.(*ssa.Call)
+						return ok && isErrCtor(c)
+					})
+				}
+				return false
+			})
+		})
+	}
+	return false
 }
 
 func (x *c13) normalise() {
